@@ -1,17 +1,45 @@
 #!/bin/bash
 # usage: extract.sh <out.json> [extra cargo args...]   (env: LSA_REPO, LSA_RUSTFLAGS_EXTRA)
+# One compilation of $LSA_REPO's library with the lsa-facts driver as rustc wrapper; writes the fact file.
+# Cross targets (-Zbuild-std) reuse a build of core/alloc kept under lsa/cache/ (gitignored; rebuilt
+# when missing): only the crate itself is recompiled, its fingerprint being removed first so that
+# cargo cannot skip the wrapper.  If the fact file does not appear, the run is repeated in a fresh
+# target directory.
 set -e
 OUT=$1; shift
 REPO=${LSA_REPO:-/repo}
 HERE=$(cd "$(dirname "$0")" && pwd)
-T=$(mktemp -d /tmp/lsa-tgt.XXXXXX)
-trap 'rm -rf "$T"' EXIT
 export LD_LIBRARY_PATH=$(rustc +nightly --print sysroot)/lib
 export RUSTFLAGS="-Zmir-opt-level=0 -Awarnings ${LSA_RUSTFLAGS_EXTRA}"
 export RUSTC_WORKSPACE_WRAPPER=$HERE/facts/target/debug/lsa-facts
 export LSA_FACTS_OUT=$OUT
-export CARGO_TARGET_DIR=$T
 export CARGO_NET_OFFLINE=true
-rm -f "$OUT"
-cargo +nightly check --offline --lib --manifest-path $REPO/Cargo.toml "$@" 2>$T/stderr || { cat $T/stderr >&2; exit 2; }
-test -s "$OUT" || { echo "no fact file written" >&2; cat $T/stderr >&2; exit 2; }
+ERRF=$(mktemp /tmp/lsa-err.XXXXXX)
+T=""
+cleanup() { rm -f "$ERRF"; [ -n "$T" ] && rm -rf "$T"; true; }
+trap cleanup EXIT
+
+run() { # $1 = target dir, rest = cargo args
+  local dir=$1; shift
+  rm -f "$OUT"
+  CARGO_TARGET_DIR=$dir cargo +nightly check --offline --lib --manifest-path $REPO/Cargo.toml "$@" 2>$ERRF
+}
+
+case " $* " in
+  *" -Zbuild-std"*)
+    if [ "${LSA_NO_CACHE:-0}" != 1 ]; then
+      TGT=$(echo "$*" | sed -n 's/.*--target \([^ ]*\).*/\1/p')
+      C=$HERE/cache/${TGT:-host}
+      mkdir -p "$C"
+      (
+        # one extraction at a time per cached directory
+        flock 9
+        find "$C" -maxdepth 4 \( -name 'lean_string-*' -o -name 'liblean_string-*' \) -exec rm -rf {} + 2>/dev/null || true
+        run "$C" "$@"
+      ) 9>"$C/.lsa-lock" && test -s "$OUT" && exit 0
+    fi
+    ;;
+esac
+T=$(mktemp -d /tmp/lsa-tgt.XXXXXX)
+run "$T" "$@" || { cat $ERRF >&2; exit 2; }
+test -s "$OUT" || { echo "no fact file written" >&2; cat $ERRF >&2; exit 2; }
